@@ -472,6 +472,7 @@ pub fn run(tier: Tier) -> i32 {
             tune: &|p: &mut Profile| {
                 p.wsdl = 0;
                 p.xml_lang = 1;
+                p.seq_in_choice = true;
             },
             only: None,
             extra: None,
